@@ -130,6 +130,8 @@ Definition oom_dict_size_skel (grow : bool) : aprog oom_outcome :=
   oom_dict_transient_k grow oom_ok oom_fail.
 Definition oom_dict_stats_skel (grow : bool) : aprog oom_outcome :=
   oom_dict_transient_k grow oom_ok oom_fail.
+(* varintDictCompressionRatio :482-494 = EncodedSize (0.0f on failure) *)
+Definition oom_dict_ratio_skel (grow : bool) : aprog oom_outcome := oom_dict_size_skel grow.
 
 (* varintDictDecode :245-338 on a well-formed stream: the output array is
    handed to the caller (one live block on success) *)
@@ -182,6 +184,9 @@ Definition oom_free4_k {A : Type} (k : aprog A) : aprog A :=
 (* varintFloatEncode :191-393 *)
 Definition oom_float_encode_skel : aprog oom_outcome :=
   oom_float4_k (oom_free4_k (* :387-390 *) oom_ok) oom_fail (* :228 return 0 *).
+
+(* varintFloatEncodeAuto :588-622 = Encode at the selected precision *)
+Definition oom_float_encode_auto_skel : aprog oom_outcome := oom_float_encode_skel.
 
 (* varintFloatDecode :396-585; has_normal = some value is not special *)
 Definition oom_float_decode_skel (has_normal : bool) : aprog oom_outcome :=
@@ -457,7 +462,7 @@ Definition oom_run_bytes (runs : list N) : list N :=
 
 Fixpoint oom_split_runs (ops : list N) : list N * list N :=
   match ops with
-  | o :: t => if N.testbit o 37 then let r := oom_split_runs t in (o :: fst r, snd r) else ([], ops)
+  | o :: t => if N.testbit o 60 then let r := oom_split_runs t in (o :: fst r, snd r) else ([], ops)
   | [] => ([], [])
   end.
 
@@ -472,7 +477,7 @@ Definition oom_bm_script (ops : list N) :=
   fold_left (fun s o =>
     let lo := (o / 65536) mod 65536 in
     let hi := o mod 65536 in
-    if N.testbit o 35 then fold_left (fun r v => fst (bm_add r v)) (oom_stride lo hi (o / 68719476736)) s
+    if N.testbit o 35 then fold_left (fun r v => fst (bm_add r v)) (oom_stride lo hi ((o / 68719476736) mod 65536)) s
     else if N.testbit o 34 then bm_remove_range s lo hi
     else if N.testbit o 33 then fst (bm_remove s hi)
     else if N.testbit o 32 then bm_add_range s lo hi
@@ -527,6 +532,7 @@ Definition oom_case_dict_build (prev vals : list N) := oom_dict_build_skel (oom_
 Definition oom_case_dict_encode (vals : list N) := oom_dict_encode_skel (oom_dict_grow [] vals).
 Definition oom_case_dict_size (vals : list N) := oom_dict_size_skel (oom_dict_grow [] vals).
 Definition oom_case_dict_stats (vals : list N) := oom_dict_stats_skel (oom_dict_grow [] vals).
+Definition oom_case_dict_ratio (vals : list N) := oom_dict_ratio_skel (oom_dict_grow [] vals).
 Definition oom_case_pfor_threshold (vals : list N) := oom_pfor_threshold_skel (oom_nonempty vals).
 Definition oom_case_pfor_encode (vals : list N) (thr : N) :=
   oom_pfor_encode_skel (oom_nonempty vals) (oom_pfor_has_exc vals thr).
@@ -557,9 +563,9 @@ Definition oom_case_bm_or (a b : list N) := oom_bm_or_skel (oom_bst_of_script a)
 
 (* EXTRACT: arun oom_val oom_live oom_count oom_leak
    oom_dict_create_skel oom_dict_decode_skel oom_dict_decode_into_skel
-   oom_float_encode_skel oom_adp_decode_skel
+   oom_float_encode_skel oom_float_encode_auto_skel oom_adp_decode_skel
    oom_bm_create_skel oom_bm_clone_skel oom_bm_decode_skel oom_bm_encode_skel oom_bm_to_array_skel
-   oom_case_dict_build oom_case_dict_encode oom_case_dict_size oom_case_dict_stats
+   oom_case_dict_build oom_case_dict_encode oom_case_dict_size oom_case_dict_stats oom_case_dict_ratio
    oom_case_pfor_threshold oom_case_pfor_encode oom_case_float_decode
    oom_case_adp_unique oom_case_adp_encode_with oom_case_adp_encode
    oom_case_bm_add oom_case_bm_remove oom_case_bm_add_many oom_case_bm_add_range
